@@ -28,6 +28,8 @@ RULE = ("dates: ordinal 1, 3652059, every 1 Jan / 31 Dec / 29 Feb (sampled in qu
         "around second / day boundaries, offsets -23:59:59..+23:59:59, naive for local-* and (TZ=UTC) for timestamp-*; "
         "local-* additionally under four other process time zones (US Eastern, Japan, Newfoundland, Central Europe: DST gaps / "
         "folds, pre-epoch, range edges, random): stored value and read back must not depend on the zone; "
+        "timestamp-* with aware data under the same four process zones: tzinfo = timezone.utc, timezone(0), a tzinfo subclass returning 0, "
+        "+-1 us, +-1 s, fixed offsets up to +-23:59:59.999999, zoneinfo zones (London, New_York, Tokyo, Abidjan, Reykjavik, Lord_Howe); "
         "uuids: 0, 2^128-1, single-byte patterns, random; decimals: (precision <= 40, scale <= precision, size <= 17) accepted by "
         "parse_schema, values +-(2^(8k-1) - {0,1,2}), +-(2^(8k-1)+1), +-10^j, +-(10^j - 1), negative zero in several exponents, "
         "positive exponents, one digit too many, one fractional digit too many, one bit too large, NaN / Infinity, random; "
@@ -354,6 +356,37 @@ def make_dt(local_us, off_s):
     return naive.replace(tzinfo=D.timezone(D.timedelta(seconds=off_s)))
 
 
+class _ZeroTz(D.tzinfo):
+    """a tzinfo whose utcoffset() is timedelta(0) without being datetime.timezone.utc"""
+
+    def utcoffset(self, dt):
+        return D.timedelta(0)
+
+    def dst(self, dt):
+        return None
+
+    def tzname(self, dt):
+        return "ZERO"
+
+
+def make_obj(case):
+    """the datum of a timestamp case; case["aware"] (optional) names the tzinfo attached to the wall clock local_us:
+    "utc" (datetime.timezone.utc), "zero" (a tzinfo subclass returning timedelta(0)), ["fixed_us", n]
+    (datetime.timezone of n microseconds), ["zoneinfo", key]"""
+    a = case.get("aware")
+    if a is None:
+        return make_dt(case["local_us"], case["offset_s"])
+    naive = EPOCH_NAIVE + D.timedelta(microseconds=case["local_us"])
+    if a == "utc":
+        return naive.replace(tzinfo=D.timezone.utc)
+    if a == "zero":
+        return naive.replace(tzinfo=_ZeroTz())
+    if a[0] == "fixed_us":
+        return naive.replace(tzinfo=D.timezone(D.timedelta(microseconds=a[1])))
+    import zoneinfo
+    return naive.replace(tzinfo=zoneinfo.ZoneInfo(a[1]))
+
+
 class process_tz:
     """run a block under another process time zone (TZ + tzset), then restore UTC"""
 
@@ -380,7 +413,7 @@ def _eval_ts(case):
     name = case["type"]
     mk, schema, naive = TS_KINDS[name]
     millis = mk in (0, 2, 4)
-    obj = make_dt(case["local_us"], case["offset_s"])
+    obj = make_obj(case)
     if naive:
         t = (obj - EPOCH_NAIVE) // US
     else:
@@ -562,6 +595,73 @@ def run_local_zones(ctx, q):
                    None if ok else "process TZ=%s: %s" % (c["tz"], why), "C16:%s:depends-on-process-time-zone" % name)
     ctx.notes["process_time_zones_for_local_timestamps"] = ZONES
     ctx.notes["local_timestamp_values_per_zone"] = len(vals)
+
+
+# timestamp-millis / micros with AWARE data must not depend on the process time zone either -- in particular when the
+# datum's offset is exactly zero (timezone.utc, timezone(timedelta(0)), a tzinfo returning timedelta(0), a zoneinfo zone
+# that is at +00:00 at that instant), or tiny (+-1 us, +-1 s)
+def aware_specs():
+    specs = ["utc", "zero", ["fixed_us", 0], ["fixed_us", 1], ["fixed_us", -1], ["fixed_us", 10 ** 6], ["fixed_us", -10 ** 6],
+             ["fixed_us", 3600 * 10 ** 6], ["fixed_us", -5 * 3600 * 10 ** 6], ["fixed_us", 19800 * 10 ** 6],
+             ["fixed_us", 86399999999], ["fixed_us", -86399999999]]
+    try:
+        import zoneinfo
+        for key in ("Europe/London", "America/New_York", "Asia/Tokyo", "Africa/Abidjan", "Atlantic/Reykjavik", "Australia/Lord_Howe"):
+            try:
+                zoneinfo.ZoneInfo(key)
+                specs.append(["zoneinfo", key])
+            except Exception:
+                pass
+    except ImportError:
+        pass
+    return specs
+
+
+def run_aware_zones(ctx, q):
+    rng = ctx.rng
+    planned = []
+    vals = gen_zone_values(ctx)
+    specs = aware_specs()
+    zero = [sp for sp in specs if sp in ("utc", "zero", ["fixed_us", 0]) or sp == ["zoneinfo", "Europe/London"]]
+    for zone in ZONES:
+        for name in ("timestamp-millis", "timestamp-micros"):
+            mk = TS_KINDS[name][0]
+            cases = []
+            for v in vals:
+                if not DT_MIN + DAY_US <= v <= DT_MAX - DAY_US:
+                    continue                                    # UTC image must stay inside the datetime range
+                for sp in zero + rng.sample(specs, 1 if ctx.quick() else 4):
+                    if not ctx.quick() or rng.random() < 0.6 or sp in ("utc", ["fixed_us", 0]):
+                        cases.append(dict(kind="timestamp", type=name, local_us=v, offset_s=None, aware=sp, tz=zone))
+            with process_tz(zone):
+                evald = [_eval_ts(c) for c in cases]
+            planned.append((name, cases, evald, q.add("c_ts %d" % mk, [z(e[0]) for e in evald])))
+    # naive data under timestamp-* in a zone without DST: outside the statement (it restricts naive data to TZ=UTC); the
+    # code's documented reading is "local time of the process", compared here with the wall clock minus nine hours
+    naive_jst = []
+    with process_tz("JST-9"):
+        import fastavro._logical_writers_py as LW
+        for v in [x for x in vals if -2 * 10 ** 18 // 1000 <= x <= 10 ** 17][:60 if ctx.quick() else 2000]:
+            obj = make_dt(v, None)
+            r = attempt(lambda: (LW.prepare_timestamp_millis(obj, None), LW.prepare_timestamp_micros(obj, None)))
+            naive_jst.append((v, r))
+    yield
+    for name, cases, evald, job in planned:
+        for c, (t, impl, ok, why), m in zip(cases, evald, job[3]):
+            mw, mr = m.split("|")
+            mdl = dict(prep=int(mw), wire=int(mw), back=int(mr) if mr != "ERR" else "raised")
+            c["instant_us"] = t
+            report(ctx, "corr:%s/other-process-zones" % name, c, (name, t, repr(c["aware"]), c["tz"]), impl, mdl, ok,
+                   None if ok else "process TZ=%s, tzinfo %r: %s" % (c["tz"], c["aware"], why),
+                   "C16:%s:aware-datum-depends-on-process-time-zone" % name)
+    for v, r in naive_jst:
+        t = v - 9 * 3600 * 10 ** 6
+        ctx.count("corr:timestamp/naive-under-JST", ("njst", v), nontrivial=False)
+        if r != ("ok", (t // 1000, t)):
+            ctx.violation("corr:timestamp/naive-under-JST", dict(kind="timestamp-naive-jst", local_us=v), impl=r, model=(t // 1000, t),
+                          signature="C16:timestamp:naive-datum-not-read-as-process-local-time", found_input=False,
+                          detail="outside the statement (naive data under timestamp-* is specified for TZ=UTC only)")
+    ctx.notes["aware_tzinfo_kinds_under_other_process_zones"] = [repr(sp) for sp in specs]
 
 
 # ------------------------------------------------------------------ uuids
@@ -1000,7 +1100,7 @@ def run(ctx):
     phases = {}
     q = ModelQueue()
     t0 = time.time()
-    gens = [fn(ctx, q) for fn in (run_dates, run_times, run_timestamps, run_local_zones, run_uuids, run_decimals)]
+    gens = [fn(ctx, q) for fn in (run_dates, run_times, run_timestamps, run_local_zones, run_aware_zones, run_uuids, run_decimals)]
     for g in gens:
         next(g)                          # generate the cases, register the model batches
     phases["generate"] = round(time.time() - t0, 1)
